@@ -296,6 +296,7 @@ def run(chk, replay=None):
     kernel_tie_leg(chk, "lef_parse3")     # LefParser::parse_layer_geometries / parse_via_shape / parse_via_layer_geometries / parse_obstructions / parse_port / parse_property_definitions = Lef/LefParse.v
     kernel_tie_leg(chk, "lef_parse_lib")  # LefParser::parse_pin, the whole function = parse_pin / pin_loop of Lef/LefParse.v
     kernel_tie_leg(chk, "lef_parse_macro")  # LefParser::parse_macro, the whole function = parse_macro / macro_loop of Lef/LefParse.v
+    kernel_tie_leg(chk, "lef_parse_via")    # LefParser::parse_via, the whole function = parse_via / gen_via_loop / fixed_via_layers_loop of Lef/LefParse.v
     chk.assumptions += [
         "rust_decimal's Decimal::from_str is an external library: specified in Lef/LefDec.v from its source and validated by the correspondence; panics inside it are outside the model",
         "derive_builder `build()` and std formatting are modelled by their documented behaviour",
